@@ -71,16 +71,21 @@ def load_harnesses():
 
 
 def harness_files():
-    """(file, parent) for every overlay file, including support files without harnesses"""
+    """(file, parent, required feature or None) for every overlay file, including support files"""
     res = []
     for f in sorted(glob.glob(os.path.join(KANI_DIR, "*.rs"))):
         if os.path.basename(f).startswith("_"):
             continue
+        parent, req = None, None
         for l in open(f):
             m = re.match(r"^\s*//\s*@parent\s+(\S+)", l)
             if m:
-                res.append((f, m.group(1)))
-                break
+                parent = m.group(1)
+            m = re.match(r"^\s*//\s*@requires\s+(\S+)", l)
+            if m:
+                req = m.group(1)
+        if parent:
+            res.append((f, parent, req))
     return res
 
 
@@ -91,17 +96,18 @@ class Scratch:
     def __enter__(self):
         subprocess.run(["rsync", "-a", "--exclude", "target", "--exclude", ".git", REPO + "/", self.dir + "/"], check=True)
         by_parent = {}
-        for f, parent in harness_files():
-            by_parent.setdefault(parent, []).append(f)
+        for f, parent, req in harness_files():
+            by_parent.setdefault(parent, []).append((f, req))
         for parent, files in by_parent.items():
             p = os.path.join(self.dir, parent)
             if not os.path.exists(p):
                 raise InfraError("lost anchor: parent source file %s" % parent)
             with open(p, "a") as fh:
                 fh.write("\n")
-                for f in files:
+                for f, req in files:
                     mod = "verif_" + os.path.splitext(os.path.basename(f))[0]
-                    fh.write('#[cfg(kani)] #[path = "%s"] pub(crate) mod %s;\n' % (f, mod))
+                    cfg = "kani" if not req else 'all(kani, feature = "%s")' % req
+                    fh.write('#[cfg(%s)] #[path = "%s"] pub(crate) mod %s;\n' % (cfg, f, mod))
         # crate-level feature gates some harnesses need are not required so far
         return self
     def __exit__(self, *a):
